@@ -55,7 +55,7 @@ fn in_range<T: Fl>(x: &[T], q: T) -> bool {
     x[0] <= q && q <= x[x.len() - 1]
 }
 
-const SHAPES: [&[usize]; 8] = [&[1], &[3], &[2, 2], &[1, 3], &[2, 1, 2], &[0], &[2, 0], &[2, 1, 1, 2]];
+const SHAPES: [&[usize]; 10] = [&[1], &[3], &[2, 2], &[1, 3], &[2, 1, 2], &[0], &[2, 0], &[2, 1, 1, 2], &[1, 1, 2, 1, 1, 1, 2], &[2, 1, 1, 1, 1, 1, 1, 1, 1, 2]];
 const ARRAY_CALLS: [&str; 4] = [
     "interp_array/static",
     "interp_array/dyn",
@@ -271,7 +271,7 @@ fn run1d<T: Fl>(job: &Job, quick: bool, out: &mut JobOut) {
         out.sample = Some(Json::obj(vec![
             ("x", Json::f64s(&job.ax.x)),
             ("single_queries", Json::strs(&singles(&xt).iter().map(|s| s.1).collect::<Vec<_>>())),
-            ("batch_shapes", Json::str("(1) (3) (2,2) (1,3) (2,1,2) (0) (2,0) (2,1,1,2); one offending element {below, above, NaN, +inf} at every position, two at every pair")),
+            ("batch_shapes", Json::str("(1) (3) (2,2) (1,3) (2,1,2) (0) (2,0) (2,1,1,2) and dynamic queries with 7 and 10 axes; one offending element {below, above, NaN, +inf} at every position, two at every pair")),
         ]));
     }
 }
@@ -574,7 +574,7 @@ fn body(ctx: &Ctx) -> (Summary, Meta) {
         out
     }));
     let meta = Meta {
-        rule: "every axis x {Linear, CubicSpline NotAKnot/Natural/Periodic/Individual, Bilinear on every ordered axis pair} x every entry point (scalar, interp, interp_into, interp_array and interp_array_into with static ranks 0..4 and dynamic rank) x single queries {ends, 1 and 2 ulp inside/outside, mid, +-inf, NaN, +-MAX, far} and batches of 8 shapes with one offending element {below, above, NaN, +inf} at every position and two at every pair; oracle: Ok iff every element lies in the closed range, else Err(OutOfBounds), never a panic. Plus integer axes (i64, i32, u32, u8; ends beyond 2^53 and at the limits of the type, queries one and two below / above the ends) and queries that are views into the buffer of the axis; every way to obtain a non-extrapolating interpolator (strategy from new() / Default::default() / extrapolate(false) / toggled, interpolator from the builder and from new_unchecked, non-square grids in both orientations). Non-trivial = expected Err, or query within 2 ulp of a range end.".into(),
+        rule: "every axis x {Linear, CubicSpline NotAKnot/Natural/Periodic/Individual, Bilinear on every ordered axis pair} x every entry point (scalar, interp, interp_into, interp_array and interp_array_into with static ranks 0..4 and dynamic rank) x single queries {ends, 1 and 2 ulp inside/outside, mid, +-inf, NaN, +-MAX, far} and batches of 10 shapes (up to 10 query axes) with one offending element {below, above, NaN, +inf} at every position and two at every pair; oracle: Ok iff every element lies in the closed range, else Err(OutOfBounds), never a panic. Plus integer axes (i64, i32, u32, u8; ends beyond 2^53 and at the limits of the type, queries one and two below / above the ends) and queries that are views into the buffer of the axis; every way to obtain a non-extrapolating interpolator (strategy from new() / Default::default() / extrapolate(false) / toggled, interpolator from the builder and from new_unchecked, non-square grids in both orientations). Non-trivial = expected Err, or query within 2 ulp of a range end.".into(),
         bounds: format!("{njobs} (type, axis or grid) jobs; tier {}", ctx.tier.name()),
         assumptions: vec![],
         extra: vec![],
